@@ -83,7 +83,44 @@ def run_history(spec, y_full, n0, steps, case, shift=0):
         p = sut(f.predict, fh_for(cutoff) if (absolute or not need_fit or case["repeat_fh"]) else None)
         discs += check_pred(p, cutoff, steps, spec, "after update %d" % j)
         obs.append(("pred_u", None if isinstance(p, Raised) else (_labels(p.index), p.to_numpy(dtype=float).tolist())))
+    rev = case.get("revision")
+    if rev and not discs and not (absolute and pools.needs_fh_in_fit(spec)):
+        # a late revision of already known observations: the batch ends BEFORE the current
+        # cutoff; "after every update [the cutoff] is the last time point of the data passed
+        # to update" (parameters are not updated, so no refit on the whole history happens)
+        back, length = rev
+        end = pos - back  # exclusive position
+        lo = max(0, end - length)
+        if end - lo >= 1 and end < pos and end >= pools.min_length(spec, steps[-1]) + 1 and not _whole_series_window(spec):
+            yb = y_full.iloc[lo:end] + 0.5
+            u = sut(f.update, yb.copy(), None, False)
+            if isinstance(u, Raised):
+                discs.append(D("update_raised:%s@%s" % (u.type, u.where), "%s revision update: %s" % (pools.describe(spec), u.msg)))
+                return obs, discs
+            cutoff = int(yb.index[-1])
+            c = sut(lambda: f.cutoff)
+            obs.append(("cutoff_after_revision", None if isinstance(c, Raised) else int(c)))
+            if isinstance(c, Raised) or int(c) != cutoff:
+                discs.append(D("cutoff_after_revision_update", "%s: cutoff %r expected %d (batch %d..%d passed with update_params=False)"
+                               % (pools.describe(spec), c, cutoff, int(yb.index[0]), cutoff)))
+                return obs, discs
+            p = sut(f.predict, fh_for(cutoff) if (absolute or not need_fit or case["repeat_fh"]) else None)
+            discs += check_pred(p, cutoff, steps, spec, "after revision update")
+            obs.append(("pred_r", None if isinstance(p, Raised) else (_labels(p.index), p.to_numpy(dtype=float).tolist())))
     return obs, discs
+
+
+def _whole_series_window(spec):
+    """A seasonal-mean NaiveForecaster with window_length=None uses the length of the series
+    it was fitted on as window; moving the cutoff back leaves it with fewer observations than
+    its window (an input no caller can satisfy), so revisions are not generated for it."""
+    if isinstance(spec, dict):
+        if spec.get("kind") == "naive" and spec.get("strategy") == "mean" and spec.get("wl") is None and (spec.get("sp") or 1) > 1:
+            return True
+        return any(_whole_series_window(v) for v in spec.values())
+    if isinstance(spec, list):
+        return any(_whole_series_window(v) for v in spec)
+    return False
 
 
 def _has_boxcox(spec):
@@ -131,6 +168,8 @@ def oracle(case, ctx):
     end0 = case["start"] + n0 - 1
     if end0 == 0:
         ctx.label("cutoff_zero")
+    if case.get("revision"):
+        ctx.label("revision_update")
     obs, discs = run_history(spec, y, n0, steps, case)
     if discs:
         return discs
@@ -183,6 +222,7 @@ def cases(draw, depth=2, cheap=False):
         "fh_kind": draw(st.sampled_from(["list", "array", "fh", "int"])),
         "repeat_fh": draw(st.booleans()), "int_dtype": draw(st.integers(0, 4)) == 0,
         "update_params": draw(st.lists(st.sampled_from([True, True, False]), min_size=1, max_size=3)),
+        "revision": draw(st.one_of(st.none(), st.none(), st.tuples(st.integers(1, 3), st.integers(1, 4)))),
         "shift": draw(st.sampled_from([1, -1, 7, -13, 100, -(start + n - 1) if start + n - 1 != 0 else 5])),
     }
 
